@@ -336,8 +336,13 @@ def check_pulses(rep, prog, m):
         scratch = [n for n in inner if isinstance(n, ast.Assign) and isinstance(n.value, ast.Call) and _last(dotted(n.value.func)) == 'zeros']
         ext_ok = False
         if scratch:
-            shp = ast.unparse(scratch[0].value.args[0]).replace(' ', '')
-            ext_ok = shp in ('(phi.shape[%d],phi.shape[%d])' % (K - 1, K - 1), '(len(%s),len(%s))' % (grids[K - 1], grids[K - 1]))
+            # each extent: phi.shape[K], len(grid_K), or the length of an index vector numpy.arange(<extent of K>)
+            extent_texts = {'phi.shape[%d]' % (K - 1), 'len(%s)' % grids[K - 1]}
+            for k_, v in sing.items():
+                if isinstance(v, ast.Call) and _last(dotted(v.func)) == 'arange' and len(v.args) == 1 and ast.unparse(v.args[0]) in extent_texts:
+                    extent_texts |= {'len(%s)' % k_, '%s.size' % k_, '%s.shape[0]' % k_}
+            shp_node = scratch[0].value.args[0]
+            ext_ok = isinstance(shp_node, (ast.Tuple, ast.List)) and len(shp_node.elts) == 2 and all(ast.unparse(x) in extent_texts for x in shp_node.elts)
         S = scratch[0].targets[0].id if scratch else '?'
         rep.ob('R-TPL(pulse)', tag + ' scratch', ext_ok, ast.unparse(scratch[0]) if scratch else 'no scratch matrix', rel, scratch[0].lineno if scratch else fn.lineno, what='scratch matrix is extent(K) x extent(K)')
         rowv = None
